@@ -250,6 +250,12 @@ def run_solve(sess, op, step, out, stats, log):
     except core.RunTimeout:
         raise
     except Exception as e:
+        if type(e).__name__ == "IntegrationError" and entry in ("integrate2", "funcjac") \
+                and method in ("dopri5", "dop853", "vode") and stiff_for_explicit(sess, grid):
+            # an explicit / non-stiff method giving up on a stiff system (|Re lambda| x horizon in the thousands):
+            # integrator failure is outside the property (it is stated on models on which the integrators succeed)
+            stats["stiff_explicit_failure_void"] = stats.get("stiff_explicit_failure_void", 0) + 1
+            return
         if op.get("long") and type(e).__name__ == "IntegrationError":
             # an integrator giving up on a gap of tens of periods: integrator failure is outside the property
             stats["integrator_failed_long_gap"] = stats.get("integrator_failed_long_gap", 0) + 1
@@ -301,6 +307,23 @@ def run_solve(sess, op, step, out, stats, log):
             k = int(np.argmax(np.abs(tot - ref_tot)))
             F(fail("C10.det.sum", step, "%s: total population %r at row %d, initial total %r" % (label, float(tot[k]), k, ref_tot)))
         stats["conservation_checked"] = stats.get("conservation_checked", 0) + 1
+
+
+def stiff_for_explicit(sess, grid, threshold=2000.0):
+    """True when the reference Jacobian along the reference solution has max |Re lambda| x (t_end - t0) beyond
+    `threshold`: an explicit Runge-Kutta or Adams method then needs more steps than its step budget."""
+    ref = sess.ref
+    try:
+        tend = float(grid[-1])
+        ts = [sess.t0 + (tend - sess.t0) * (k + 1) / 12.0 for k in range(12)]
+        X = refsolve.solve(ref, sess.theta, sess.x0, sess.t0, ts)
+        worst = 0.0
+        for x, t in zip([sess.x0] + list(X), [sess.t0] + ts):
+            J = ref.num("J", x, t, sess.theta)
+            worst = max(worst, float(np.abs(np.linalg.eigvals(J).real).max()))
+        return worst * (tend - sess.t0) > threshold
+    except Exception:
+        return False
 
 
 def rebind(sess, op, step, out, stats, log):
@@ -647,10 +670,15 @@ def grad_call(sess, op, step, out, stats, log):
                 return r.reshape(len(d["obs_t"]), ns)
             nfree = len(free)
             want = np.zeros((len(d["obs_t"]), ns * nfree))
+            jac_noise = np.zeros_like(want)
             for k in range(nfree):
-                col = richardson_vec(resid, free, k)
+                col, spr = richardson_vec(resid, free, k, spread=True)
+                # evaluation noise of the finite difference itself: |d(h/2) - d(h)| plus the solver tolerance
+                # of the residual (1e-8 (1 + |yhat|)) divided by the step
+                hk = 1e-4 * max(1.0, abs(free[k]))
                 for s in range(ns):
                     want[:, k * ns + s] = -col[:, s]
+                    jac_noise[:, k * ns + s] = 3.0 * spr[:, s] + 1e-8 * (1.0 + np.abs(np.array(d["y"], float).reshape(len(d["obs_t"]), ns)[:, s])) / hk
             cost_scale = np.abs(want).max() + 1.0
         else:
             fcost = (lambda v: float(obj.costIV(np.array(v, float)))) if which == "sensitivityIV" else \
@@ -687,7 +715,7 @@ def grad_call(sess, op, step, out, stats, log):
     if got.shape != want.shape:
         out.append(fail("C07.shape.%s" % which, step, "%s returned shape %s, %d free variables" % (label, got.shape, len(free))))
         return
-    tol = 2e-4 * np.maximum(np.abs(got), np.abs(want)) + (noise if which != "jac" else 1e-5 * cost_scale) + 1e-10
+    tol = 2e-4 * np.maximum(np.abs(got), np.abs(want)) + (noise if which != "jac" else 1e-5 * cost_scale + jac_noise) + 1e-10
     if np.any(np.abs(got - want) > tol) or not np.all(np.isfinite(got)):
         k = int(np.argmax(np.abs(got - want) - tol))
         perm = ""
@@ -741,7 +769,7 @@ def grad_noise_floor(sess, d, free, with_iv):
     return np.array([float(np.sum(kappa * delta * np.abs(w * c))) for c in cols])
 
 
-def richardson_vec(f, x, j, rel=1e-4):
+def richardson_vec(f, x, j, rel=1e-4, spread=False):
     x = np.array(x, float)
     h = rel * max(1.0, abs(x[j]))
     e = np.zeros(len(x))
@@ -749,6 +777,8 @@ def richardson_vec(f, x, j, rel=1e-4):
     d1 = (f(x + e) - f(x - e)) / (2 * h)
     e[j] = h / 2
     d2 = (f(x + e) - f(x - e)) / h
+    if spread:
+        return (4 * d2 - d1) / 3.0, np.abs(d2 - d1)
     return (4 * d2 - d1) / 3.0
 
 
